@@ -17,7 +17,8 @@ Refines == phase = "done" =>
               /\ (PVerdict(shape) = "ok"  => out = "ok")
               /\ (PVerdict(shape) = "err" => out = "err")
               /\ (PVerdict(shape) = "refused" <=> out = "refused")
+              /\ (PVerdict(shape) = "serr" => out = "serr")
 AllocOK == MPrealloc(shape) <= PreallocCap(FrameOctets(shape))
 BoundaryOK == MConsumedWholeFrame(shape)
-TypeOK == out \in {NA, "ok", "err", "refused"} /\ PVerdict(shape) \in {"ok", "err", "either", "refused"}
+TypeOK == out \in {NA, "ok", "err", "serr", "refused"} /\ PVerdict(shape) \in {"ok", "err", "serr", "either", "refused"}
 =============================================================================
